@@ -56,6 +56,10 @@ type SegInfo struct {
 	FragTfdt []int64
 	FragSeq  []int64
 	FragDur  []int64
+	// segment index box, if any (as decoded from the bytes served)
+	HasSidx       bool
+	SidxEPT       int64
+	SidxTimescale int64
 }
 
 func ParseMediaSegment(data []byte, trex *mp4.TrexBox) (*SegInfo, error) {
@@ -72,6 +76,9 @@ func ParseMediaSegment(data []byte, trex *mp4.TrexBox) (*SegInfo, error) {
 	for _, s := range f.Segments {
 		if s.Styp != nil {
 			si.HasStyp = true
+		}
+		if s.Sidx != nil && !si.HasSidx {
+			si.HasSidx, si.SidxEPT, si.SidxTimescale = true, int64(s.Sidx.EarliestPresentationTime), int64(s.Sidx.Timescale)
 		}
 		for _, fr := range s.Fragments {
 			si.NFrags++
